@@ -76,6 +76,7 @@ namespace
         bool last_block_exceeded = false;
         bool last_stack_exceeded = false;
         uint64_t max_ops = 64;
+        bool finite_only = false; // the build promised the library no inf/NaN/denormal inputs (XSIMD_NO_* macros): generate none
         uint64_t watchdog_ms = 400;
         std::vector<uint64_t> nearpi_f32, nearpi_f64; // hard cases of trigonometric argument reduction (nearpi.hpp)
         std::string only_fn;
@@ -109,6 +110,7 @@ namespace
             tick_clock().block_budget = p.u64("block_budget", 1u << 18);
             watchdog_ms = p.u64("watchdog_ms", 400);
             only_fn = p.str("only_fn", "");
+            finite_only = p.u64("finite_only", 0) != 0;
         }
         uint64_t shrink_budget() const { return 400; }
 
@@ -194,6 +196,8 @@ namespace
             case 2: // every binade equally likely, random mantissa
             {
                 uint64_t e = rng.below(emax); // excludes inf/nan exponent
+                if (finite_only && e == 0)
+                    e = 1; // no denormals
                 uint64_t m = rng.next() & ((1ull << mbits) - 1);
                 if (rng.chance(1, 4))
                     m = 0; // exact power of two
@@ -204,7 +208,7 @@ namespace
             {
                 meta.binade = -1;
                 uint64_t s = sign << (ebits + mbits);
-                switch (rng.below(8))
+                switch (finite_only ? (rng.coin() ? 0 : 6 + rng.below(2)) : rng.below(8))
                 {
                 case 0:
                     return s; // +-0
@@ -809,7 +813,7 @@ namespace
                     for (int sg = 0; sg < 2; ++sg)
                         for (int m = 0; m < 4; ++m, ++item)
                         {
-                            if (item % args.stride != args.offset)
+                            if (item % args.stride != args.offset || (finite_only && m >= 2))
                                 continue;
                             const uint64_t x = tab[k] | (sg ? signbit : 0);
                             auto build = [&]() -> Plan
